@@ -6,9 +6,35 @@ ID=$1; TIER=${2:-${VERIF_TIER:-quick}}; shift 2 || true
 [ -n "$ID" ] || die "usage: check.sh <id> <tier>"
 mkwork "$ID"
 gen_corpus
-build_vchk
+if [ "$ID" = C21 ]; then
+  # C21: ytypes/string_type.go is compiled from a copy DERIVED NOW from the current file in which only
+  # the import "sync" is rewritten to the scheduler shim, so an edit to the real file is never masked.
+  sed 's#^\t"sync"$#\tsync "github.com/openconfig/ygot/zzverif/sched/shim"#' "$REPO/ytypes/string_type.go" > "$WORK/string_type.go"
+  grep -q 'zzverif/sched/shim' "$WORK/string_type.go" || die "C21: could not rewrite the sync import of ytypes/string_type.go"
+  # complementary free-running race-detector pass (real sync, real goroutines), built without the shim
+  make_overlay
+  if (cd "$REPO" && $GO build -race -tags verif -overlay "$WORK/overlay.json" -o "$WORK/vchk-race" ./zzverif/cmd/vchk) >"$WORK/race.build.log" 2>&1; then
+    ROUNDS=3; [ "$TIER" = thorough ] && ROUNDS=20
+    if GORACE="halt_on_error=1 exitcode=66" "$WORK/vchk-race" -race-pass $ROUNDS >"$WORK/race.log" 2>&1; then
+      export VERIF_C21_RACE_RESULT="free-running -race pass: all pairs and triples of the 10 operations x $ROUNDS rounds x GOMAXPROCS {2,4,16}: no race reported (sampling, complementary evidence)"
+    else
+      RACE_FAILED=1
+    fi
+  else
+    export VERIF_C21_RACE_RESULT="race pass not run: -race build failed ($(tail -1 "$WORK/race.build.log"))"
+  fi
+  build_vchk "$REPO/ytypes/string_type.go=$WORK/string_type.go"
+else
+  build_vchk
+fi
 mkdir -p "$VERIF/evidence" "$VERIF/replays/$ID"
 OUTARG=(); [ -n "$VERIF_OUT" ] && { mkdir -p "$VERIF_OUT"; OUTARG=(-out "$VERIF_OUT"); }
 "$WORK/vchk" -prop "$ID" -tier "$TIER" -seed "${VERIF_SEED:-0}" -verif "$VERIF" -repo "$REPO" "${OUTARG[@]}" "$@"
 rc=$?
+if [ -n "$RACE_FAILED" ]; then
+  mkdir -p "${VERIF_OUT:-$VERIF}/replays/C21"
+  cp "$WORK/race.log" "${VERIF_OUT:-$VERIF}/replays/C21/race-report.txt"
+  echo "VIOLATION property=C21 replay=${VERIF_OUT:-$VERIF}/replays/C21/race-report.txt sig=race-detector detail=$(grep -m1 -A3 'DATA RACE\|fatal error' "$WORK/race.log" | tr '\n' ' ' | cut -c1-300)"
+  rc=1
+fi
 exit $rc
